@@ -706,4 +706,20 @@ def runCodesTrace (fuel : Nat) (globals : List String) (codes : List CodeB) : (V
   let m : VM := { codes := codes, globals := g, frames := [{ codeId := "__main__", pc := 0, base := 0, free := [], spBase := 0 }] }
   runVMTrace fuel m #[]
 
+/-- number of instructions dispatched up to and including the one at which the machine first
+    starts to unwind a Go PANIC (`none`: no panic within the fuel).  What the real VM does while a
+    recovered Go panic unwinds (which deferred closures get to run, at which stack height) follows
+    from accidents of the Go runtime — after an operand-stack overflow `sp` stays one past the
+    array and every `resumeFrame` panics again — and is not modelled: the lockstep comparison of
+    dispatch traces stops at this index when the run ends in a panic (harness/c01trace.go). -/
+def panicDispatchIndex : Nat → VM → Nat → Option Nat
+  | 0, _, _ => none
+  | f + 1, m, k =>
+    let k' := if (dispatchInfo m).isSome then k + 1 else k
+    match step m with
+    | .ok m' =>
+      if m.raising.isNone && (m'.raising.map (·.cls)) == some "panic" then some k'
+      else panicDispatchIndex f m' k'
+    | .error _ => none
+
 end Risor.C01
